@@ -10,7 +10,8 @@ _orm.define(globals(), "C46", ("C46",), "refresh",
             "deterministic simulation: seeded ORM session histories in which a second connection changes committed rows behind the session "
             "(between its transactions) and the session then expires, refreshes, commits or runs populate_existing queries; every read of an "
             "expired attribute must return what the session's transaction sees, refreshed / re-populated objects must equal their rows "
-            "(joined-inheritance sub-table columns included), attribute-level expiry must leave other pending changes alone",
+            "(joined-inheritance sub-table columns included), attribute-level expiry must leave other pending changes alone; a composite() value "
+            "read after expire / refresh of one of its columns, of both, or of the composite's own name equals the row",
             "seeded search with expire_on_commit on and off; ground truth is probed on the session's own connection right after the read.  "
             "Sampled.",
             "external writes happen only while the session holds no transaction (SQLite has one writer); loader options (load_only, "
